@@ -42,7 +42,9 @@ fn range_set_i64<const N: usize>() {
         }
         i += 1;
     }
-    kani::cover!(got, "member");
+    if N > 0 {
+        kani::cover!(got, "member");
+    }
     kani::cover!(!got, "non-member");
     if N >= 2 {
         kani::cover!(los[0] > los[N - 1], "unsorted input");
